@@ -7,7 +7,7 @@ mod.run(ctx)
 print('cases',ctx.cases,'corr',ctx.corr_total,'bad',len(ctx.corr_bad),'spec',ctx.spec_total,'bad',len(ctx.spec_bad))
 print(collections.Counter(b['tag'] for b in ctx.spec_bad))
 print(collections.Counter(b['correspondence'] for b in ctx.corr_bad))
-print(ctx.classes)
+print(len(ctx.classes), "classes")
 if len(sys.argv)>3:
     for b in ctx.spec_bad[:int(sys.argv[3])]: print(b)
     for b in ctx.corr_bad[:int(sys.argv[3])]: print(b)
